@@ -44,6 +44,10 @@ static NOISE_SEED: AtomicU64 = AtomicU64::new(0x9E37_79B9_7F4A_7C15);
 
 const TABLE: usize = 1 << 17;
 static HITS: [AtomicU32; TABLE] = [const { AtomicU32::new(0) }; TABLE];
+/// Largest per-operation execution count of each site in the earlier operations of this run
+/// (0 = not executed by any of them), and whether there was such an operation.
+static PROFILE: [AtomicU32; TABLE] = [const { AtomicU32::new(0) }; TABLE];
+static PROFILED: AtomicU32 = AtomicU32::new(0);
 
 struct Tls {
     /// This thread is a worker of a simulation.
@@ -85,12 +89,34 @@ pub fn set_salt(s: u64) {
     SALT.store(s, Relaxed);
 }
 
-/// Forget the per-site execution counts (start of an operation).
+/// Start of an operation: the per-site execution counts of the operation that just ended go into
+/// the profile of this run, then they are forgotten.
 pub fn reset_hits() {
     let n = (SITES.load(Relaxed) as usize + 1).min(TABLE);
-    for h in HITS[..n].iter() {
-        h.store(0, Relaxed);
+    let mut any = false;
+    for (h, p) in HITS[..n].iter().zip(PROFILE[..n].iter()) {
+        let v = h.load(Relaxed);
+        if v != 0 {
+            any = true;
+            if v > p.load(Relaxed) {
+                p.store(v, Relaxed);
+            }
+            h.store(0, Relaxed);
+        }
     }
+    if any {
+        PROFILED.store(1, Relaxed);
+    }
+}
+
+/// Start of a run (a simulated process): no profile yet.
+pub fn reset_profile() {
+    let n = (SITES.load(Relaxed) as usize + 1).min(TABLE);
+    for (h, p) in HITS[..n].iter().zip(PROFILE[..n].iter()) {
+        h.store(0, Relaxed);
+        p.store(0, Relaxed);
+    }
+    PROFILED.store(0, Relaxed);
 }
 
 /// The simulator's callback: `fn(kind)`, called on a worker thread that is not inside the simulator.
@@ -186,9 +212,23 @@ fn guard_slow(id: u32, m: u32) {
             let slot = &HITS[id as usize & (TABLE - 1)];
             let v = slot.load(Relaxed);
             slot.store(v.wrapping_add(1), Relaxed);
-            let rare = (v < 8 || v.is_power_of_two()) && {
+            // Which executions are candidates, and how many of them yield. Without a profile: the
+            // first eight of a site in this operation and every power of two, one in four. With one
+            // (an earlier operation of this run executed code): a site that ran at most 16 times in
+            // every earlier operation is rare for good - every execution is a candidate, one in two
+            // yields; a site that ran more often only keeps its first two executions and the powers
+            // of two, one in sixteen; a site no earlier operation reached is treated as unprofiled.
+            let prof = if PROFILED.load(Relaxed) != 0 { PROFILE[id as usize & (TABLE - 1)].load(Relaxed) } else { 0 };
+            let (cand, mask) = if prof == 0 {
+                (v < 8 || v.is_power_of_two(), 3u64)
+            } else if prof <= 16 {
+                (v < 64, 1u64)
+            } else {
+                (v < 2 || v.is_power_of_two(), 15u64)
+            };
+            let rare = cand && {
                 let s = SALT.load(Relaxed);
-                s != 0 && mix(s, id as u64, v as u64) & 3 == 0
+                s != 0 && mix(s, id as u64, v as u64) & mask == 0
             };
             let skip = t.skip.get();
             if rare || skip == 0 {
